@@ -610,7 +610,13 @@ def phase_c(rec, tables):
                 res["points"] += 1
                 try:
                     with np.errstate(all="ignore"):
-                        got = call(**{n: v.copy() for n, v in data.items()})
+                        # inputs are bound by NAME: the keyword order alternates between the
+                        # binding's own order and its reverse (found by a seeded fault that bound
+                        # the inputs positionally in the caller's keyword order)
+                        items = list(data.items())
+                        if k % 2 == 1:
+                            items.reverse()
+                        got = call(**{n: v.copy() for n, v in items})
                 except Exception as e:
                     bad = ("run_raises", {"binding": {n: show(v) for n, v in data.items()},
                                           "error": "%s: %s" % (type(e).__name__, e)})
